@@ -164,7 +164,9 @@ func newClipModel(c *Ctx) *clipModel {
 		var ok1, ok2 bool
 		m.cap.subject, ok1 = ringsOf(recv)
 		m.cap.clip, ok2 = ringsOf(args[1])
-		if !ok1 || !ok2 {
+		if w := poisonIn(recv, map[*oStruct]bool{}, 0) + poisonIn(args[1], map[*oStruct]bool{}, 0); w != "" || ((!ok1 || !ok2) && (hasTop(recv) || hasTop(args[1]))) {
+			m.cap.bad = "?the operands handed to Construct could not be determined: " + w
+		} else if !ok1 || !ok2 {
 			m.cap.bad = "operands of Construct are not lists of contours of the inputs' vertices"
 		}
 		return []oval{m.pcValue(m.ret)}, true
@@ -379,8 +381,11 @@ func (m *clipModel) runSetOps(ruleOp, rulePlumb, ruleClose string) {
 						continue // a shortcut that never reaches the clipper: judged by C01.R4
 					}
 					reached++
-					if cp.bad != "" && plumbMsg == "" {
+					if cp.bad != "" && (plumbMsg == "" || strings.HasPrefix(cp.bad, "?")) {
 						plumbMsg = ctx + ": " + cp.bad
+						if strings.HasPrefix(cp.bad, "?") {
+							plumbMsg = "?" + ctx + ": " + cp.bad[1:]
+						}
 					}
 					if cp.calls > 1 && plumbMsg == "" {
 						plumbMsg = fmt.Sprintf("%s: the clipper is called %d times", ctx, cp.calls)
@@ -561,8 +566,11 @@ func (m *clipModel) runClip(ruleRoles, ruleStrip string) {
 					continue
 				}
 				reached++
-				if cp.bad != "" && rolesMsg == "" {
+				if cp.bad != "" && (rolesMsg == "" || strings.HasPrefix(cp.bad, "?")) {
 					rolesMsg = ctx + ": " + cp.bad
+					if strings.HasPrefix(cp.bad, "?") {
+						rolesMsg = "?" + ctx + ": " + cp.bad[1:]
+					}
 				}
 				if cp.op != clipline && rolesMsg == "" {
 					rolesMsg = fmt.Sprintf("%s reaches Construct with operation %d, want polyclip.CLIPLINE (%d)", ctx, cp.op, clipline)
